@@ -174,9 +174,19 @@ def _log(a):
             (m, c), = mono_.t.items()
             if c * s_ > 0:
                 lm = _log(Rat(mono_.scale(s_)))
-                lp = Rat(Poly.atom(LOG(key(Rat(pol_.scale(s_))))))
+                lp = _log_poly(pol_.scale(s_))
                 return (lm - lp) if mono_is_num else (lp - lm)
+    if a.d.is_const() and len(a.n.t) >= 2 and a.d.const_value() > 0:
+        return _log_poly(a.n.scale(1 / a.d.const_value()))
     return Rat(Poly.atom(LOG(key(a))))
+
+
+def _log_poly(p):
+    """log of a polynomial with >= 2 terms: the constant term (if positive) is normalised to 1"""
+    c0 = p.t.get((), None)
+    if c0 is not None and c0 > 0 and c0 != 1:
+        return Rat(_log_of_rational(c0)) + Rat(Poly.atom(LOG(key(Rat(p.scale(1 / c0))))))
+    return Rat(Poly.atom(LOG(key(Rat(p)))))
 
 
 def _content(p):
@@ -291,3 +301,15 @@ def diff_term(t, var, fn_derivs=None):
 
 def _np(msg):
     raise NotPolynomial(msg)
+
+
+def reduce_sqrt(p):
+    """('SQRT', key)^2 -> the polynomial the key stands for (only for polynomial radicands)"""
+    from .rules_c11 import subs_power
+    for a in list(p.atoms()):
+        if isinstance(a, tuple) and a and a[0] == "SQRT" and isinstance(a[1], tuple) and p.degree_in(a) >= 2:
+            r = ARGS[a[1]]
+            q = subs_power(p, a, 2, r)
+            if q.d.is_const():
+                p = q.n.scale(1 / q.d.const_value())
+    return p
